@@ -142,6 +142,8 @@ type world struct {
 	lastX    map[int][][]byte  // call -> the ids of its last EXECUTE / BATCH frame (history lock)
 	silent   map[string]int    // key label -> the one PREPARE of that key that was never answered (history lock)
 	proto    int
+	roams    []*roam // the roaming Queries of this world (history lock)
+	pol      *pinPolicy
 	// connection loss (at most one per world): from D on - until the pool is seen whole again - every call that is
 	// running or starts is PERMITTED to return an abort error (K:<c>, here: "the connection serving call c was closed
 	// by the server", the same licence a done context gives); a call that starts later has no such licence
@@ -299,9 +301,11 @@ func (w *world) poolRenewed() bool {
 
 func keyLabel(host, stmt int) string { return fmt.Sprintf("h%d.s%d", host, stmt) }
 
-func (w *world) idFor(stmt, serial int) []byte {
+// idFor: the id host number `host` issues for statement stmt (PREPARE number serial). No two hosts ever issue the same
+// id: an id that another host issued is an id this host does not know.
+func (w *world) idFor(host, stmt, serial int) []byte {
 	if w.stableID {
-		return []byte(fmt.Sprintf("S%02d", stmt))
+		return []byte(fmt.Sprintf("S%02dh%d", stmt, host))
 	}
 	return []byte(fmt.Sprintf("s%02dn%04d", stmt, serial))
 }
@@ -438,7 +442,7 @@ func (w *world) handle(n *nodeState, req *memcluster.Request) {
 			w.h.evs = append(w.h.evs, hev{text: fmt.Sprintf("P:%d:%s:err/%s", serial, key, pfWords[kind])})
 			op, body = failedPrepareReply(kind, serial)
 		} else {
-			id := w.idFor(si, serial)
+			id := w.idFor(n.idx, si, serial)
 			n.registered[string(id)] = si
 			nc := w.stmts[si].ncols
 			sig := w.bindSig(si, serial, nc)
@@ -496,6 +500,17 @@ func (w *world) handle(n *nodeState, req *memcluster.Request) {
 		}
 		call := int(ts) - 1
 		w.h.mu.Lock()
+		var rm *roam
+		if ts >= roamBase {
+			// a frame of a roaming Query: it belongs to that Query's latest attempt on THIS host
+			call = -1
+			if i := int(ts - roamBase); i < len(w.roams) {
+				rm = w.roams[i]
+				if a, ok := rm.onHost[n.idx]; ok {
+					call = a
+				}
+			}
+		}
 		// the frame itself: right host, right number of values per prepared entry
 		bad := ""
 		if cs, ok := w.calls.Load(call); !ok {
@@ -560,7 +575,20 @@ func (w *world) handle(n *nodeState, req *memcluster.Request) {
 			sc.Reply(req.Stream, memcluster.OpError, memcluster.ErrorBody(memcluster.ErrInvalid, "xe", nil))
 			return
 		}
-		if w.onExec != nil {
+		morePages := false
+		if rm != nil {
+			// the roaming Query's own script: the first `errs` executions that carry known ids are answered with an
+			// error (the retry policy moves on to the next host), the pages but the last say that there is more
+			handled = true
+			if unknown == nil {
+				rm.served++
+				if rm.served <= rm.errs {
+					f = xfate{kind: 1}
+				} else if rm.served < rm.errs+rm.pages {
+					morePages = true
+				}
+			}
+		} else if w.onExec != nil {
 			f, gate, handled = w.onExec(n, call, unknown == nil)
 		}
 		if !handled && unknown == nil && n.nx < len(n.xf) {
@@ -577,7 +605,15 @@ func (w *world) handle(n *nodeState, req *memcluster.Request) {
 			if sn, ok := w.serialOf[string(ids[0])]; ok {
 				name = fmt.Sprintf("r%d", sn)
 			}
-			body = memcluster.RowsBody([]memcluster.Col{{Name: name, Type: memcluster.TInt}}, nil, nil, req.QFlags&0x02 != 0)
+			var rows [][][]byte
+			var paging []byte
+			if rm != nil {
+				rows = [][][]byte{{{0, 0, 0, 7}}}
+				if morePages {
+					paging = []byte("more")
+				}
+			}
+			body = memcluster.RowsBody([]memcluster.Col{{Name: name, Type: memcluster.TInt}}, rows, paging, req.QFlags&0x02 != 0)
 		}
 		unTok := func(id []byte) string { return "un/" + vh.Hex(id) + "/" + vh.Hex(w.issued[string(id)]) }
 		switch {
@@ -652,6 +688,9 @@ func (p *pinPolicy) Pick(q gocql.ExecutableQuery) gocql.NextHost {
 	case *gocql.Batch:
 		ctx = x.Context()
 	}
+	if rm, ok := ctx.Value(roamKey{}).(*roam); ok {
+		return rm.nextHost
+	}
 	ip, _ := ctx.Value(ctxKey{}).(string)
 	done := false
 	return func() gocql.SelectedHost {
@@ -666,6 +705,125 @@ func (p *pinPolicy) Pick(q gocql.ExecutableQuery) gocql.NextHost {
 		}
 		return nil
 	}
+}
+
+// ---------- one Query value executed on several hosts ----------
+//
+// A roaming Query is ONE gocql.Query whose executions go to different hosts: the pages of a paged iteration (every page
+// is a new execution of a copy of the Query, handed to the host selection policy again) or the attempts of a retry
+// policy that answers every error with RetryNextHost. What such executions share is the Query value - whatever the
+// driver remembers THERE about the prepared statement was learnt on another host. For the specification every
+// execution is a call of its own on its own host: S is logged by the host selection policy when it hands out the host
+// for the execution (before the driver looks anything up), T by the Query's observer when the execution has ended,
+// and a frame belongs to the Query's latest execution on the host that received it (the default timestamp names the
+// Query). So `Obs` demands of every EXECUTE what it demands of any other: an id (and value widths) that a PREPARE of
+// that statement ON THAT HOST returned and that had not left the cache - C14_id_belongs_host.
+const roamBase = int64(1) << 20
+
+type roamKey struct{}
+
+type roam struct {
+	w      *world
+	id     int
+	stmt   int
+	nvals  int
+	hosts  []int       // the host of the i-th execution
+	next   int         // executions handed out so far (history lock)
+	onHost map[int]int // host -> call number of the Query's latest execution there (history lock)
+	specs  map[int]*callSpec
+	errs   int // executions answered with an error before one is answered ok (retries on the next host)
+	pages  int // pages of the successful execution chain
+	served int // frames with known ids answered so far (history lock)
+}
+
+func (rm *roam) nextHost() gocql.SelectedHost {
+	w := rm.w
+	w.h.mu.Lock()
+	if rm.next >= len(rm.hosts) || w.h.stopped {
+		w.h.mu.Unlock()
+		return nil
+	}
+	hi := rm.hosts[rm.next]
+	rm.next++
+	num := w.h.ncalls
+	w.h.ncalls++
+	spec := &callSpec{host: hi, entries: []entrySpec{{stmt: rm.stmt, nvals: rm.nvals}}}
+	w.calls.Store(num, spec)
+	rm.onHost[hi] = num
+	rm.specs[num] = spec
+	w.h.evs = append(w.h.evs, hev{text: fmt.Sprintf("S:%d:q:%s/%d", num, keyLabel(hi, rm.stmt), rm.nvals)})
+	w.running[num] = true
+	if w.lossy {
+		w.permitAbortLocked(num)
+	}
+	w.h.mu.Unlock()
+	w.pol.mu.Lock()
+	defer w.pol.mu.Unlock()
+	if h := w.pol.hosts[w.nodes[hi].ip]; h != nil {
+		return pinned{h}
+	}
+	return nil
+}
+
+// ObserveQuery: an execution of the roaming Query has ended
+func (rm *roam) ObserveQuery(_ context.Context, oq gocql.ObservedQuery) {
+	w := rm.w
+	n := w.byIP[oq.Host.ConnectAddress().String()]
+	if n == nil {
+		w.h.add("Z:roaming-query-observed-on-an-unknown-host")
+		return
+	}
+	w.h.mu.Lock()
+	num, ok := rm.onHost[n.idx]
+	if ok && w.running[num] {
+		delete(w.running, num)
+		if !w.h.stopped {
+			w.h.evs = append(w.h.evs, hev{text: fmt.Sprintf("T:%d:%s", num, w.classify(rm.specs[num], oq.Err))})
+		}
+	} else if !w.h.stopped {
+		w.h.evs = append(w.h.evs, hev{text: fmt.Sprintf("Z:roaming-query-execution-on-host-%d-that-the-policy-did-not-hand-out", n.idx)})
+	}
+	w.h.mu.Unlock()
+}
+
+type nextHostRetry struct{ n int }
+
+func (r *nextHostRetry) Attempt(q gocql.RetryableQuery) bool { return q.Attempts() <= r.n }
+func (r *nextHostRetry) GetRetryType(error) gocql.RetryType  { return gocql.RetryNextHost }
+
+// newRoam registers a roaming Query: errs executions that fail (each retried on the next host of `hosts`), then pages
+// pages, each fetched from the next host of `hosts`.
+func (w *world) newRoam(stmt, nvals int, hosts []int, errs, pages int) *roam {
+	w.h.mu.Lock()
+	rm := &roam{w: w, id: len(w.roams), stmt: stmt, nvals: nvals, hosts: hosts, onHost: map[int]int{}, specs: map[int]*callSpec{},
+		errs: errs, pages: pages}
+	w.roams = append(w.roams, rm)
+	w.h.mu.Unlock()
+	return rm
+}
+
+// doRoam runs the roaming Query to its end (all pages). Returns when the iteration is closed.
+func (w *world) doRoam(rm *roam) {
+	defer func() {
+		if r := recover(); r != nil {
+			w.h.add("C")
+		}
+	}()
+	v := make([]interface{}, rm.nvals)
+	for i := range v {
+		v[i] = i
+	}
+	ctx := context.WithValue(context.Background(), roamKey{}, rm)
+	q := w.sess.Query(w.stmts[rm.stmt].text, v...).WithContext(ctx).WithTimestamp(roamBase + int64(rm.id)).Observer(rm).Idempotent(true)
+	if rm.errs > 0 {
+		q = q.RetryPolicy(&nextHostRetry{n: rm.errs})
+	}
+	it := q.Iter()
+	var x int
+	for it.Scan(&x) {
+	}
+	it.Close()
+	w.sampleLen()
 }
 
 // ---------- world ----------
@@ -715,6 +873,7 @@ func newWorld(r *vh.Rng, c worldCfg) (*world, error) {
 	cfg.MaxPreparedStmts = c.capacity
 	cfg.Keyspace = c.ks
 	pol := &pinPolicy{hosts: map[string]*gocql.HostInfo{}}
+	w.pol = pol
 	cfg.PoolConfig.HostSelectionPolicy = pol
 	s, err := cfg.CreateSession()
 	if err != nil {
@@ -772,7 +931,7 @@ func (w *world) checkResultCol(num int, c *callSpec, name string) string {
 	sn, err := strconv.Atoi(name[1:])
 	key, known := w.prepKey[sn]
 	if err != nil || !known || key != keyLabel(c.host, c.entries[0].stmt) ||
-		(!w.stableID && string(w.idFor(c.entries[0].stmt, sn)) != string(ids[0])) {
+		(!w.stableID && string(w.idFor(c.host, c.entries[0].stmt, sn)) != string(ids[0])) {
 		return fmt.Sprintf("Z:call-%d-result-metadata-%s-is-not-that-of-the-PREPARE-whose-id-it-executed", num, sanitize(name))
 	}
 	return ""
@@ -1350,6 +1509,20 @@ func (rn *runner) randomWith(near bool) {
 			}
 		}()
 	}
+	if c.nhosts == 2 && r.Intn(2) == 0 {
+		// one Query value executed on both hosts (pages / retries on the next host), among the others
+		for i, n := 0, 1+r.Intn(2); i < n; i++ {
+			st := r.Intn(nst)
+			errs, pages := r.Intn(2), 1+r.Intn(2)
+			var hosts []int
+			for j, f := 0, r.Intn(2); j < errs+pages; j++ {
+				hosts = append(hosts, (f+j)%2)
+			}
+			rm := w.newRoam(st, w.stmts[st].ncols, hosts, errs, pages)
+			wg.Add(1)
+			go func() { defer wg.Done(); w.doRoam(rm) }()
+		}
+	}
 	cls := "random"
 	if near {
 		cls = "random-near"
@@ -1913,6 +2086,53 @@ func (rn *runner) steppedRandom() {
 		xf[i] = "ooooeffu"[r.Intn(8)]
 	}
 	rn.stepped([]int{1, 1, 2, 1000}[r.Intn(4)], string(word), string(pf), string(xf))
+}
+
+// roaming: ONE Query value executed on both hosts - the pages of a paged iteration fetched from alternating hosts, or the
+// attempts of a RetryNextHost policy after scripted execute errors, or both - while ordinary executions of the same
+// statement run on the two hosts (so that each host's entry is in flight, cached or absent when the roaming Query
+// arrives there). Hosts never issue the same id, so an EXECUTE that carries what the Query learnt on the other host is
+// an EXECUTE with an id this host never issued.
+func (rn *runner) roaming() {
+	r := rn.r
+	c := worldCfg{nhosts: 2, nconns: 1 + r.Intn(2), capacity: []int{1000, 0, 2, 1}[r.Intn(4)], stmts: mkStmts(2, r), stableID: r.Bool(),
+		proto: []int{4, 4, 3}[r.Intn(3)]}
+	w, err := newWorld(r, c)
+	if err != nil {
+		rn.out.Case("trace Z:no-session", "accept", "conc/no-session", true)
+		return
+	}
+	var wg sync.WaitGroup
+	warm := r.Intn(3) // 0: both hosts cold, 1: the statement is cached for the second host, 2: ordinary callers run alongside
+	errs := []int{0, 0, 1, 2}[r.Intn(4)]
+	pages := 1 + r.Intn(3)
+	if errs == 0 && pages == 1 {
+		pages = 2
+	}
+	first := r.Intn(2)
+	var hosts []int
+	for i := 0; i < errs+pages; i++ {
+		hosts = append(hosts, (first+i)%2)
+	}
+	nv := w.stmts[0].ncols
+	if warm == 1 {
+		w.doCall(&callSpec{host: 1 - first, entries: []entrySpec{{stmt: 0, nvals: nv}}})
+	}
+	nroam := 1 + r.Intn(2)
+	for i := 0; i < nroam; i++ {
+		rm := w.newRoam(0, nv, hosts, errs, pages)
+		wg.Add(1)
+		go func() { defer wg.Done(); w.doRoam(rm) }()
+	}
+	if warm == 2 {
+		for g, n := 0, 1+r.Intn(3); g < n; g++ {
+			cs := &callSpec{host: r.Intn(2), entries: []entrySpec{{stmt: r.Intn(2), nvals: 0}}}
+			cs.entries[0].nvals = w.stmts[cs.entries[0].stmt].ncols
+			wg.Add(1)
+			go func() { defer wg.Done(); w.doCall(cs) }()
+		}
+	}
+	rn.emit(w, &wg, fmt.Sprintf("roaming/errs%d/pages%d/warm%d/cap%d", errs, pages, warm, c.capacity))
 }
 
 // connectionLost: the server closes every connection of the host (a node that goes away and comes back with its
@@ -2488,6 +2708,9 @@ func sessionTier(r *vh.Rng, out *vh.Out, outdir string, mult int) {
 				steps = append(steps, func() { rn.prepareFails(kind, role, true) })
 			}
 		}
+	}
+	for i := 0; i < 24*mult; i++ {
+		steps = append(steps, rn.roaming)
 	}
 	for i := 0; i < 80*mult; i++ {
 		steps = append(steps, rn.steppedRandom)
